@@ -1,6 +1,7 @@
 package main
 
 import (
+	"encoding/json"
 	"fmt"
 	"go/types"
 	"os"
@@ -34,6 +35,7 @@ type World struct {
 	loadErrors   []string
 	preserveSets map[string]*Item
 	knownObligations map[string]bool
+	recordedParams   map[string]map[string][]string // contract-params.json: names the contracts were written against
 }
 
 func loadWorld(repo string, patterns []string) (*World, error) {
@@ -125,6 +127,13 @@ func loadWorld(repo string, patterns []string) (*World, error) {
 				}
 			}
 		}
+	}
+	pf := os.Getenv("GOVC_PARAMS")
+	if pf == "" {
+		pf = "/verif/contract-params.json"
+	}
+	if b, err := os.ReadFile(pf); err == nil {
+		_ = json.Unmarshal(b, &w.recordedParams)
 	}
 	for _, it := range w.pures {
 		if it.Body != nil && mentionsCall(it.Body, it.Name) {
